@@ -7,14 +7,14 @@
 From Coq Require Import List NArith Bool.
 From Frugal Require Import Bytes Wire Skip Values Desc Spec Encode Decode Checks Tags State Bitset Alloc DescMap Conc LegacyDefs.
 From Frugal.gen Require Import Params.
-From Frugal.proofs Require Import GenParams Corollaries.
+From Frugal.proofs Require Import GenDecParams Corollaries.
 From Frugal.props Require Import Examples.
 Import ListNotations.
 
 (* value level: the reference decoder does not distinguish nocopy fields, and the byte-level decoder
    equals it (the nocopy branch of the field loop is covered by the proof of C03_decode_is_absorb) *)
 Theorem C14_same_value : forall env pool sid fs rest dst,
-  params_ok = true -> env_ok env = true -> wf (WStruct fs []) = true ->
+  dec_params_ok = true -> env_ok env = true -> wf (WStruct fs []) = true ->
   (need env (TStruct sid) (WStruct fs []) <= S (N.to_nat maxDepthLimit))%nat ->
   (skipped_depth env (TStruct sid) (WStruct fs []) <= 63)%nat ->
   decode_object env pool sid (put (WStruct fs []) ++ rest) dst
@@ -30,5 +30,5 @@ Proof. vm_compute. reflexivity. Qed.
 
 (* the side conditions on the generated constants and tables that the theorems above assume hold
    for what the translator read from the sources of this run *)
-Theorem C14_side_conditions : params_ok = true.
-Proof. exact params_ok_holds. Qed.
+Theorem C14_side_conditions : dec_params_ok = true.
+Proof. exact dec_params_ok_holds. Qed.
